@@ -370,6 +370,7 @@ class Interp(object):
         lay = self._resolve_layout(op)
         args = self._layout_args(lay, op.get("ints"), True)
         self._lib(self.tags(op="randomize"), self.obj.randomize, *args)
+        self.passed = None
         raw = np.array(self.obj._big_H_no_pathloss, copy=True)
         shape = (sum(lay["Nr"]), sum(lay["Nt"]) + sum(lay["NtE"]))
         if raw.shape != shape:
@@ -389,9 +390,36 @@ class Interp(object):
 
     def _init_from(self, lay, raw, ints=False):
         args = self._layout_args(lay, ints, not self.ext)
+        # the caller's own array (kept: the caller may try to write to it)
+        self.passed = raw.copy()
         self._lib(self.tags(op="init_matrix"),
-                  self.obj.init_from_channel_matrix, raw.copy(), *args)
+                  self.obj.init_from_channel_matrix, self.passed, *args)
         self._after_init(lay, raw)
+
+    def _op_poke(self, op):
+        """The caller writes into ITS OWN array after handing it to
+        init_from_channel_matrix.  The library keeps the views in sync by
+        making that memory read-only; so either the write is refused, or it
+        succeeds and every view still agrees with the object's global
+        matrix (which becomes the model's raw channel)."""
+        arr = getattr(self, "passed", None)
+        if arr is None or arr.size == 0:
+            self.ctx.label("poke_skipped(no caller array)")
+            return
+        i = int(op["i"]) % arr.shape[0]
+        j = int(op["j"]) % arr.shape[1]
+        try:
+            arr[i, j] = arr[i, j] + 1
+            wrote = True
+        except ValueError:
+            wrote = False
+        if not wrote:
+            self.ctx.label("poke_refused(read-only)")
+            return
+        self.ctx.label("poke_succeeded")
+        raw = np.array(self.obj._big_H_no_pathloss, copy=True)
+        self.states = []
+        self.raw = raw
 
     def _op_pathloss(self, op):
         kind = op["kind"]
@@ -798,13 +826,15 @@ def _ops_st(tier, cls):
     corrupt = fixed(op=st.just("corrupt"),
                     mode=st.sampled_from(["data", "concat"]),
                     nsymb=st.integers(1, 4), seed=seeds)
+    poke = fixed(op=st.just("poke"), i=st.integers(0, 40),
+                 j=st.integers(0, 40))
     mutate = st.one_of(pathloss, pathloss, pathloss, randomize, init_m,
-                       noise, filt)
+                       noise, filt, poke)
     observe = st.one_of(read, read, read, corrupt)
     return dict(randomize=randomize, init_matrix=init_m, mutate=mutate,
                 observe=observe,
                 any=st.one_of(read, read, read, pathloss, pathloss, pathloss,
-                              corrupt, randomize, init_m, noise, filt))
+                              corrupt, randomize, init_m, noise, filt, poke))
 
 
 def _hist_strategy(tier):
